@@ -18,6 +18,7 @@ def Inv : Expr F → Cache → Prop
   | .call1 _ a, c => Inv a c.k1
   | .call2 _ a b, c => Inv a c.k1 ∧ Inv b c.k2
   | .call3 _ a b d, c => Inv a c.k1 ∧ Inv b c.k2 ∧ Inv d c.k3
+  | .call4 _ a b d e, c => Inv a c.k1 ∧ Inv b c.k2 ∧ Inv d c.k3a ∧ Inv e c.k3b
   | _, _ => True
 
 @[simp] theorem k1_setK1 (c k : Cache) : (c.setK1 k).k1 = k := rfl
@@ -35,6 +36,20 @@ def Inv : Expr F → Cache → Prop
 @[simp] theorem k1_node (a b : Ty) (f : Option Entry) (x y z : Cache) : (Cache.node a b f x y z).k1 = x := rfl
 @[simp] theorem k2_node (a b : Ty) (f : Option Entry) (x y z : Cache) : (Cache.node a b f x y z).k2 = y := rfl
 @[simp] theorem k3_node (a b : Ty) (f : Option Entry) (x y z : Cache) : (Cache.node a b f x y z).k3 = z := rfl
+@[simp] theorem k3a_setK1 (c k : Cache) : (c.setK1 k).k3a = c.k3a := rfl
+@[simp] theorem k3b_setK1 (c k : Cache) : (c.setK1 k).k3b = c.k3b := rfl
+@[simp] theorem k3a_setK2 (c k : Cache) : (c.setK2 k).k3a = c.k3a := rfl
+@[simp] theorem k3b_setK2 (c k : Cache) : (c.setK2 k).k3b = c.k3b := rfl
+@[simp] theorem k1_setK3a (c k : Cache) : (c.setK3a k).k1 = c.k1 := rfl
+@[simp] theorem k2_setK3a (c k : Cache) : (c.setK3a k).k2 = c.k2 := rfl
+@[simp] theorem k3a_setK3a (c k : Cache) : (c.setK3a k).k3a = k := rfl
+@[simp] theorem k3b_setK3a (c k : Cache) : (c.setK3a k).k3b = c.k3b := rfl
+@[simp] theorem k1_setK3b (c k : Cache) : (c.setK3b k).k1 = c.k1 := rfl
+@[simp] theorem k2_setK3b (c k : Cache) : (c.setK3b k).k2 = c.k2 := rfl
+@[simp] theorem k3a_setK3b (c k : Cache) : (c.setK3b k).k3a = c.k3a := rfl
+@[simp] theorem k3b_setK3b (c k : Cache) : (c.setK3b k).k3b = k := rfl
+@[simp] theorem k3a_node (a b : Ty) (f : Option Entry) (x y z : Cache) : (Cache.node a b f x y z).k3a = z.k1 := rfl
+@[simp] theorem k3b_node (a b : Ty) (f : Option Entry) (x y z : Cache) : (Cache.node a b f x y z).k3b = z.k2 := rfl
 @[simp] theorem fn_node (a b : Ty) (f : Option Entry) (x y z : Cache) : (Cache.node a b f x y z).fn = f := rfl
 
 /-- the cache right after construction satisfies the invariant. -/
@@ -50,6 +65,9 @@ theorem compile_inv (e : Expr F) : Inv ctx e (compileCache ctx e) := by
   | call2 fn a b iha ihb => exact ⟨by simpa [compileCache] using iha, by simpa [compileCache] using ihb⟩
   | call3 fn a b d iha ihb ihd =>
     exact ⟨by simpa [compileCache] using iha, by simpa [compileCache] using ihb, by simpa [compileCache] using ihd⟩
+  | call4 fn a b d e iha ihb ihd ihe =>
+    exact ⟨by simpa [compileCache] using iha, by simpa [compileCache] using ihb, by simpa [compileCache] using ihd,
+      by simpa [compileCache] using ihe⟩
   | _ => simp [Inv]
 
 variable (σ : Scope F)
@@ -89,6 +107,17 @@ theorem typeW_inv (e : Expr F) : ∀ c, Inv ctx e c → Inv ctx e (typeW ctx σ 
       · exact ⟨by simpa using iha _ h1, by simpa using ihb _ h2, by simpa using ihd _ h3⟩
       · exact ⟨by simpa using iha _ h1, by simpa using ihb _ h2, by simpa using h3⟩
     · exact ⟨by simpa using iha _ h1, by simpa using h2, by simpa using h3⟩
+  | call4 fn a b d e iha ihb ihd ihe =>
+    intro c h
+    obtain ⟨h1, h2, h3, h4⟩ := h
+    simp only [typeW]
+    split
+    · split
+      · split
+        · exact ⟨by simpa using iha _ h1, by simpa using ihb _ h2, by simpa using ihd _ h3, by simpa using ihe _ h4⟩
+        · exact ⟨by simpa using iha _ h1, by simpa using ihb _ h2, by simpa using ihd _ h3, by simpa using h4⟩
+      · exact ⟨by simpa using iha _ h1, by simpa using ihb _ h2, by simpa using h3, by simpa using h4⟩
+    · exact ⟨by simpa using iha _ h1, by simpa using h2, by simpa using h3, by simpa using h4⟩
   | _ => intro c h; simp [Inv]
 
 
@@ -225,6 +254,70 @@ theorem evalC_eq_evalN (e : Expr F) : ∀ (w : Ty) (c : Cache) (st : FnState F),
       | trap => simp [Inv, h3, g3, hid]
     | err => simp [Inv, h3, hib, hid]
     | trap => simp [Inv, h3, hib, hid]
+  | call4 fn a b d e iha ihb ihd ihe =>
+    intro w c st h
+    obtain ⟨hia, hib, hid, hie⟩ := h
+    have hka := typeW_inv ctx σ a c.k1 hia
+    have hkb := typeW_inv ctx σ b c.k2 hib
+    have hkd := typeW_inv ctx σ d c.k3a hid
+    have hke := typeW_inv ctx σ e c.k3b hie
+    have ha := argEval_eq (typeP ctx σ a) (missOk a) (typeW ctx σ a c.k1) st
+      (fun t => evalC ctx σ t a (typeW ctx σ a c.k1) st) (fun t => evalN ctx σ t a st) (Inv ctx a) hka
+      (fun t => iha t _ st hka)
+    simp only [evalC, evalN]
+    rcases hC : argEval (typeP ctx σ a) (missOk a) (typeW ctx σ a c.k1) st
+      (fun t => evalC ctx σ t a (typeW ctx σ a c.k1) st) with ⟨r1, k1, s1⟩
+    rcases hN : argEvalN (typeP ctx σ a) (missOk a) st (fun t => evalN ctx σ t a st) with ⟨r1n, s1n⟩
+    rw [hC, hN] at ha
+    obtain ⟨h1, h2, h3⟩ := ha
+    simp only at h1 h2 h3
+    subst h1 h2
+    cases r1 with
+    | ok v1 =>
+      simp only
+      have hb := argEval_eq (typeP ctx σ b) (missOk b) (typeW ctx σ b c.k2) s1
+        (fun t => evalC ctx σ t b (typeW ctx σ b c.k2) s1) (fun t => evalN ctx σ t b s1) (Inv ctx b) hkb
+        (fun t => ihb t _ s1 hkb)
+      rcases hC2 : argEval (typeP ctx σ b) (missOk b) (typeW ctx σ b c.k2) s1
+        (fun t => evalC ctx σ t b (typeW ctx σ b c.k2) s1) with ⟨r2, k2, s2⟩
+      rcases hN2 : argEvalN (typeP ctx σ b) (missOk b) s1 (fun t => evalN ctx σ t b s1) with ⟨r2n, s2n⟩
+      rw [hC2, hN2] at hb
+      obtain ⟨g1, g2, g3⟩ := hb
+      simp only at g1 g2 g3
+      subst g1 g2
+      cases r2 with
+      | ok v2 =>
+        simp only
+        have hd := argEval_eq (typeP ctx σ d) (missOk d) (typeW ctx σ d c.k3a) s2
+          (fun t => evalC ctx σ t d (typeW ctx σ d c.k3a) s2) (fun t => evalN ctx σ t d s2) (Inv ctx d) hkd
+          (fun t => ihd t _ s2 hkd)
+        rcases hC3 : argEval (typeP ctx σ d) (missOk d) (typeW ctx σ d c.k3a) s2
+          (fun t => evalC ctx σ t d (typeW ctx σ d c.k3a) s2) with ⟨r3, k3, s3⟩
+        rcases hN3 : argEvalN (typeP ctx σ d) (missOk d) s2 (fun t => evalN ctx σ t d s2) with ⟨r3n, s3n⟩
+        rw [hC3, hN3] at hd
+        obtain ⟨f1, f2, f3⟩ := hd
+        simp only at f1 f2 f3
+        subst f1 f2
+        cases r3 with
+        | ok v3 =>
+          simp only
+          have he := argEval_eq (typeP ctx σ e) (missOk e) (typeW ctx σ e c.k3b) s3
+            (fun t => evalC ctx σ t e (typeW ctx σ e c.k3b) s3) (fun t => evalN ctx σ t e s3) (Inv ctx e) hke
+            (fun t => ihe t _ s3 hke)
+          rcases hC4 : argEval (typeP ctx σ e) (missOk e) (typeW ctx σ e c.k3b) s3
+            (fun t => evalC ctx σ t e (typeW ctx σ e c.k3b) s3) with ⟨r4, k4, s4⟩
+          rcases hN4 : argEvalN (typeP ctx σ e) (missOk e) s3 (fun t => evalN ctx σ t e s3) with ⟨r4n, s4n⟩
+          rw [hC4, hN4] at he
+          obtain ⟨e1, e2, e3⟩ := he
+          simp only at e1 e2 e3
+          subst e1 e2
+          cases r4 <;> simp [Inv, h3, g3, f3, e3]
+        | err => simp [Inv, h3, g3, f3, hie]
+        | trap => simp [Inv, h3, g3, f3, hie]
+      | err => simp [Inv, h3, g3, hid, hie]
+      | trap => simp [Inv, h3, g3, hid, hie]
+    | err => simp [Inv, h3, hib, hid, hie]
+    | trap => simp [Inv, h3, hib, hid, hie]
   | bin op l r ihl ihr =>
     intro w c st h
     have hspec : (specC ctx σ op l r c).1 = (specN ctx σ op l r).1 ∧
